@@ -17,6 +17,12 @@ def disc17(sc: dict, tr: dict, clause: str, pos: int) -> str:
         if tc is not None and te is not None and any(e['ev'] == 'api_ret' and e['op'] == 'reg' and e.get('ok') and tc <= e['t'] <= te
                                                      for e in evs):
             return 'registration-completed-during-close'
+    if clause == 'C17_GoodbyesBeforeClose':
+        # finding D27: close requested while the goodbye sequence of an unregistration (of one service or of all) is still running
+        evs = tr['events']
+        tc = next((e['t'] for e in evs if e['ev'] == 'api' and e['op'] == 'close'), None)
+        if tc is not None and any(e['ev'] == 'api' and e['op'] in ('unreg', 'unreg_all') and 0 <= tc - e['t'] < 250 for e in evs):
+            return 'close-cuts-goodbyes-of-unregister'
     return disc(sc, tr, clause, pos)
 
 
